@@ -138,7 +138,7 @@ def run_threshold(desc, ctx):
             r = call(ctx, "fit_raises", svd.fit_transform, M, disc=disc, keep_warnings=True)
             got = None if isinstance(r, Failed) else int(len(r[1]))
         else:
-            pca = PCA(n_modes=f, init_rank_reduction=irr, random_state=desc["rs"], compute_eagerly=True)
+            pca = PCA(n_modes=f, init_rank_reduction=irr, random_state=desc["rs"], compute_eagerly=True, solver=solver)
             r = call(ctx, "fit_raises", pca.fit, to_da(M, "numpy"), disc=disc, keep_warnings=True)
             got = None if isinstance(r, Failed) else int(pca.V.sizes["mode"])
         warned = any("explained variance was requested" in str(w.message) or "requested" in str(w.message) for w in rec)
